@@ -4,6 +4,7 @@
 #![allow(dead_code)]
 
 pub mod alloc;
+pub mod boxgen;
 pub mod cpu;
 pub mod panicmon;
 pub mod layoutx;
